@@ -653,7 +653,34 @@ const TIMES: [&str; 20] = [
 ];
 const OFFSETS: [&str; 13] = ["", "Z", "z", "+00:00", "-00:00", "+0530", "+05", "-12:34:56", "+01:00:00.5", "+24:00", "+05:3", "+05:30", "+01:00:00"];
 const ZONES: [&str; 8] = ["", "[UTC]", "[!UTC]", "[+05:30]", "[+05:30:00]", "[America/New_York]", "[]", "[utc]"];
-const CALS: [&str; 9] = ["", "[u-ca=iso8601]", "[u-ca=ISO8601]", "[u-ca=gregory]", "[!u-ca=iso8601]", "[u-ca=iso8601][u-ca=iso8601]", "[u-ca=iso8601][u-ca=gregory]", "[u-ca=iso8601][!u-ca=gregory]", "[u-ca=unknowncal]"];
+const CALS: [&str; 25] = [
+    "",
+    "[u-ca=iso8601]",
+    "[u-ca=ISO8601]",
+    "[u-ca=gregory]",
+    "[!u-ca=iso8601]",
+    "[!u-ca=gregory]",
+    "[u-ca=unknowncal]",
+    "[!u-ca=unknowncal]",
+    "[u-ca=iso8601][u-ca=unknowncal]",
+    // every pair of calendar annotations over two values x critical flags
+    "[u-ca=iso8601][u-ca=iso8601]",
+    "[u-ca=iso8601][u-ca=gregory]",
+    "[u-ca=gregory][u-ca=iso8601]",
+    "[u-ca=gregory][u-ca=gregory]",
+    "[!u-ca=iso8601][u-ca=iso8601]",
+    "[!u-ca=iso8601][u-ca=gregory]",
+    "[!u-ca=gregory][u-ca=iso8601]",
+    "[!u-ca=gregory][u-ca=gregory]",
+    "[u-ca=iso8601][!u-ca=iso8601]",
+    "[u-ca=iso8601][!u-ca=gregory]",
+    "[u-ca=gregory][!u-ca=iso8601]",
+    "[u-ca=gregory][!u-ca=gregory]",
+    "[!u-ca=iso8601][!u-ca=iso8601]",
+    "[!u-ca=iso8601][!u-ca=gregory]",
+    "[!u-ca=gregory][!u-ca=iso8601]",
+    "[u-ca=iso8601][foo=bar][!u-ca=gregory]",
+];
 const OTHERS: [&str; 5] = ["", "[foo=bar]", "[!foo=bar]", "[Foo=bar]", "[_x-1=ab-cd]"];
 const DATE_GOALS: [Goal; 10] = [Goal::Date, Goal::DateTime, Goal::Time, Goal::YearMonth, Goal::MonthDay, Goal::Instant, Goal::Zoned, Goal::RelativeTo, Goal::TzStr, Goal::Calendar];
 
